@@ -84,8 +84,14 @@ def tolSqOf (tol : Option ℚ) (z : QI) : ℚ :=
   | some t => if t = 0 then 1000000 * max (eps * eps) (normSqQI z * eps) else t * t
   | none => 1000000 * max (eps * eps) (normSqQI z * eps)
 
-/-- the same test for Gaussian-rational roots, on squares: `|z - p|² < t²`. -/
-def closeQI (tol : Option ℚ) (z p : QI) : Bool := decide (normSqQI (z - p) < tolSqOf tol z)
+/-- the same test for Gaussian-rational roots, on squares: `|z - p|² < t²` — for a tolerance
+`t ≥ 0`; against a negative explicit tolerance `abs(z - p) < t` never holds (the comparison on
+squares alone would accept it: found when the tie `C15GenMinreal.generated_close_eq_closeQI` was
+proved; the real code cancels nothing for `tol < 0`). -/
+def closeQI (tol : Option ℚ) (z p : QI) : Bool :=
+  match tol with
+  | some t => if t < 0 then false else decide (normSqQI (z - p) < tolSqOf tol z)
+  | none => decide (normSqQI (z - p) < tolSqOf tol z)
 
 end Minreal
 
